@@ -92,8 +92,33 @@ func obligationScript(fr *FuncResult, o *Obligation, getVals []*Term) (string, i
 	}
 	asserts = append(asserts, fr.Assumes[:n]...)
 	asserts = append(asserts, o.PC)
-	asserts = append(asserts, Not(o.Goal))
+	asserts = append(asserts, skolemizeNegGoal(o.Goal))
 	return Script(asserts, getVals, "", 0), TermSize(asserts)
+}
+
+// skolemizeNegGoal returns not(goal) with the goal's leading universal quantifiers replaced by fresh constants.
+func skolemizeNegGoal(g *Term) *Term {
+	var rec func(g *Term) *Term
+	rec = func(g *Term) *Term {
+		switch {
+		case g.Op == "forall":
+			m := map[*Term]*Term{}
+			for i := 0; i < g.NBind; i++ {
+				m[g.Args[i]] = Fresh("sk."+g.Args[i].Op, g.Args[i].Sort)
+			}
+			return rec(Subst(g.Args[g.NBind], m))
+		case g.Op == "=>" && len(g.Args) == 2:
+			return Implies(g.Args[0], rec(g.Args[1]))
+		case g.Op == "and" && !g.IsVar:
+			var as []*Term
+			for _, a := range g.Args {
+				as = append(as, rec(a))
+			}
+			return And(as...)
+		}
+		return g
+	}
+	return Not(rec(g))
 }
 
 // groundScript is the instantiated weakening of the same query ("" when the query has no quantifier).
